@@ -139,9 +139,16 @@ def gen(run):
         yield C.case(W, H, data), "valid-c19"
     # streams far beyond the 4 KiB bit buffer filled with back-references that carry the most extra bits, with a deep green code
     # (extradeep) or a single-symbol distance code (onedist): the read-ahead computed per image must cover them
-    for i in range(9 if quick else 240):
+    for i in range(6 if quick else 240):
         W, H, data, _ = V.build_lossless(rng, ["extradeep", "onedist", "extradeep"][i % 3])
         yield C.case(W, H, data), "valid-longrefs"
+    # ONE maximal back-reference placed at every bit offset before the end of the first 4096 bytes of the bit stream (where the 4 KiB
+    # buffer runs dry): a read-ahead bound that is a few bits short rejects exactly the streams whose reference starts in that window
+    for k in (range(0, 72) if quick else range(0, 160)):
+        for dsym in ((28,) if quick else (28, 26, 29)):
+            r = V.boundary_sweep(k, dist_sym=dsym)
+            if r:
+                yield C.case(r[0], r[1], r[2]), "valid-boundary-sweep"
     # long literal runs with red/blue/alpha codes of depth 15: a pixel costs more bits than a back-reference; the stream crosses
     # several refills of the 4 KiB bit buffer at varying bit offsets (read-ahead computation, C08's anchor lossless.rs:303-313)
     for i in range(40 if quick else 600):
